@@ -66,6 +66,9 @@ def operations(d, kind, t=None):
         "write1": lambda: d.write("plain", 7),
         "write2": lambda: d.write(("plain", 7), ("plain2", 8)),
         "writefrag": lambda: d.write("big_int{2100}", big),
+        # transfers of exactly two fragments: whatever the last fragment does to the counter shows on the very next message
+        "readfrag2": lambda: d.read("big_int{400}"),
+        "writefrag2": lambda: d.write("big_int{400}", big[:400]),
         "bitwrite": lambda: d.write("plain.3", True),
         "bitmerge": lambda: d.write(("plain.3", True), ("plain.4", False), ("plain2.0", True), ("plain3", 5)),
         "upload": lambda: d.get_tag_list(),
@@ -86,7 +89,7 @@ def stutter(t, d, at):
 
 
 KIND_OF = {"generic": "cip", "slc_read": "slc", "slc_write": "slc"}
-ALL_OPS = ["generic", "read1", "read2", "readmany", "readfrag", "readfrag_stutter1", "readfrag_stutter2", "write1", "write2", "writefrag", "bitwrite", "bitmerge", "upload", "redundant_open", "slc_read", "slc_write"]
+ALL_OPS = ["generic", "read1", "read2", "readmany", "readfrag", "readfrag2", "readfrag_stutter1", "readfrag_stutter2", "write1", "write2", "writefrag", "writefrag2", "bitwrite", "bitmerge", "upload", "redundant_open", "slc_read", "slc_write"]
 
 
 def conn_of(t):
@@ -209,7 +212,7 @@ def preset_tags(pers):
     return copy.deepcopy(_PRESET[pers])
 
 
-FRESH_OPS = ["read1", "read2", "write1", "bitwrite", "readfrag", "writefrag", "generic", "upload",
+FRESH_OPS = ["read1", "read2", "write1", "bitwrite", "readfrag", "writefrag", "readfrag2", "writefrag2", "generic", "upload",
              "upload_refused1", "upload_refused2", "readfrag_refused2", "writefrag_refused2", "read2_refused1", "write1_refused1",
              "read1_lost_reply", "write1_lost_reply", "readfrag_lost_reply2", "generic_lost_reply"]
 
@@ -260,6 +263,7 @@ def fresh_histories(rep, pers, init_tags, tier):
             ops = {
                 "read1": lambda: d.read("plain"), "read2": lambda: d.read("plain", "plain2"), "write1": lambda: d.write("plain", 7), "bitwrite": lambda: d.write("plain.3", True),
                 "readfrag": lambda: d.read("big_int{2100}"), "writefrag": lambda: d.write("big_int{2100}", big),
+                "readfrag2": lambda: d.read("big_int{400}"), "writefrag2": lambda: d.write("big_int{400}", big[:400]),
                 "generic": lambda: d.generic_message(service=0x0E, class_code=0x99, instance=1, attribute=1), "upload": lambda: d.get_tag_list(),
                 "upload_refused1": lambda: refusing(ctl, (0x55,), 1, d.get_tag_list), "upload_refused2": lambda: refusing(ctl, (0x55,), 2, d.get_tag_list),
                 "readfrag_refused2": lambda: refusing(ctl, (0x52,), 2, lambda: d.read("big_int{2100}")), "writefrag_refused2": lambda: refusing(ctl, (0x53,), 2, lambda: d.write("big_int{2100}", big)),
@@ -295,7 +299,9 @@ def shards(tier, seed):
     big = BIG_CALLS if tier == "thorough" else BIG_CALLS[:2]
     return [("sweep", op) for op in ALL_OPS] + [("mixed", k) for k in ("logix", "slc")] + [("bigcall", op, k) for k in big for op in ("read", "write")] \
         + [("bigcall", op, k) for k in (WRAP, WRAP - 1) for op in ("read-packets", "write-packets")] \
-        + [("fresh", pers, it) for pers in ("m800", "v32", "v20") for it in (False, True)]
+        + [("between", k) for k in (WRAP - 1, WRAP)] \
+        + [("fresh", pers, it) for pers in ("m800", "v32", "v20") for it in (False, True)] \
+        + [("fresh", "v32", True, "debuglog"), ("sweep", "readfrag", "debuglog"), ("sweep", "writefrag", "debuglog"), ("sweep", "bitmerge", "debuglog")]
 
 
 # calls whose number of requests sits at the counter's modulus: whatever a request "costs" in counts, k, k+1 or k-1 of them come around to the same count
@@ -315,6 +321,28 @@ def run_shard(shard, tier, seed):
         recs = sweep(rep, op, phases, full)
         rep.extra["records"] = [(op, recs)]
         rep.sample({"operation": op, "phases_visited": len(recs), "counts_per_run": sorted({v[2] for v in recs.values()})[:5], "at_wrap": recs.get(WRAP)})
+    elif shard[0] == "between":
+        # k unconnected messages (which carry no sequence count) between two connected ones: they must not move the counter round to where it was
+        k = shard[1]
+        t, w, d, r = make_world("cip")
+        w.io_budget = 10**9
+        kinds = (dict(connected=False, unconnected_send=False, route_path=False), dict(connected=False, unconnected_send=True, route_path=True))
+        for kw in kinds:
+            call(d.generic_message, service=0x0E, class_code=0x99, instance=1)
+            conn = conn_of(t)
+            n0, n_ev = len(conn.seqs), len(t.events)
+            for _ in range(k):
+                d.generic_message(service=0x0E, class_code=0x99, instance=1, **kw)
+            out = call(d.generic_message, service=0x0E, class_code=0x99, instance=1)
+            seqs = conn.seqs[n0 - 1:]
+            flagged = [e for e in t.events[n_ev:] if e[0].startswith("C17")]
+            ok = out[0] == "ok" and bool(out[1]) and len(seqs) == 2 and seqs[0] != seqs[1] and not flagged
+            rep.case(("between", k, kw["unconnected_send"]), outcome="ok" if ok else "bad", calls=k + 2)
+            if not ok:
+                rep.violation("sequence/unconnected-between/duplicate", f"{k} unconnected messages ({'Unconnected Send' if kw['unconnected_send'] else 'UCMM'}) between two connected ones: counts on the connection {seqs!r}, target flagged {flagged[:1]!r}, result {out!r:.60}",
+                              {"op": "between", "phase": None, "k": k})
+        call(d.close)
+        w.__exit__()
     elif shard[0] == "fresh":
         fresh_histories(rep, shard[1], shard[2], tier)
     elif shard[0] == "bigcall":
@@ -432,6 +460,8 @@ def replay(r):
     if r["op"] == "mixed":
         rep2 = run_shard(("mixed", "logix"), "quick", 0)
         rep.merge(rep2)
+    elif r["op"] == "between":
+        rep.merge(run_shard(("between", r["k"]), "quick", 0))
     elif r["op"] == "fresh":
         rep.merge(run_shard(("fresh", r["pers"], r["init_tags"]), "quick", 0))
     elif r["op"].startswith("bigcall-"):
